@@ -2,4 +2,427 @@ import ZarrsModel.Model.Shard
 /- helper lemmas for C15 (CRC-32C linearity, Fletcher-32 arithmetic, shard bounds) -/
 namespace Zarrs.Codec
 
+/-! ### CRC-32C: the shift register is linear over xor -/
+
+theorem xor_eq_zero_imp {a b : Nat} (h : a ^^^ b = 0) : a = b := by
+  have : (a ^^^ b) ^^^ b = b := by rw [h, Nat.zero_xor]
+  rwa [Nat.xor_assoc, Nat.xor_self, Nat.xor_zero] at this
+
+theorem xor_ne_self {x d : Nat} (hd : d ≠ 0) : x ^^^ d ≠ x := by
+  intro h
+  apply hd
+  have : x ^^^ (x ^^^ d) = 0 := by rw [h, Nat.xor_self]
+  rwa [← Nat.xor_assoc, Nat.xor_self, Nat.zero_xor] at this
+
+theorem shiftStep_xor (a b : Nat) : shiftStep (a ^^^ b) = shiftStep a ^^^ shiftStep b := by
+  have hd : (a ^^^ b) / 2 = a / 2 ^^^ b / 2 := by
+    have := @Nat.shiftRight_xor_distrib 1 a b
+    simpa [Nat.shiftRight_eq_div_pow] using this
+  have hm := @Nat.xor_mod_two_eq_one a b
+  unfold shiftStep
+  by_cases ha : a % 2 = 1 <;> by_cases hb : b % 2 = 1
+  · have : ¬ ((a ^^^ b) % 2 = 1) := by rw [hm]; simp [ha, hb]
+    rw [if_neg this, if_pos ha, if_pos hb, hd]
+    calc a / 2 ^^^ b / 2 = a / 2 ^^^ b / 2 ^^^ (crcPoly ^^^ crcPoly) := by rw [Nat.xor_self, Nat.xor_zero]
+      _ = _ := by ac_rfl
+  · have : (a ^^^ b) % 2 = 1 := by rw [hm]; simp [ha, hb]
+    rw [if_pos this, if_pos ha, if_neg hb, hd]; ac_rfl
+  · have : (a ^^^ b) % 2 = 1 := by rw [hm]; simp [ha, hb]
+    rw [if_pos this, if_neg ha, if_pos hb, hd]; ac_rfl
+  · have : ¬ ((a ^^^ b) % 2 = 1) := by rw [hm]; simp [ha, hb]
+    rw [if_neg this, if_neg ha, if_neg hb, hd]
+
+theorem shiftStep_lt {r : Nat} (h : r < 2 ^ 32) : shiftStep r < 2 ^ 32 := by
+  unfold shiftStep
+  split
+  · apply Nat.xor_lt_two_pow
+    · omega
+    · unfold crcPoly; omega
+  · omega
+
+theorem shiftStep_eq_zero {r : Nat} (h : r < 2 ^ 32) (h0 : shiftStep r = 0) : r = 0 := by
+  unfold shiftStep at h0
+  split at h0
+  · have := xor_eq_zero_imp h0
+    unfold crcPoly at this; omega
+  · omega
+
+theorem shift8_xor (a b : Nat) : shift8 (a ^^^ b) = shift8 a ^^^ shift8 b := by
+  simp only [shift8, shiftStep_xor]
+
+theorem shift8_lt {r : Nat} (h : r < 2 ^ 32) : shift8 r < 2 ^ 32 := by
+  unfold shift8
+  exact shiftStep_lt (shiftStep_lt (shiftStep_lt (shiftStep_lt (shiftStep_lt (shiftStep_lt (shiftStep_lt (shiftStep_lt h)))))))
+
+theorem shift8_eq_zero {r : Nat} (h : r < 2 ^ 32) (h0 : shift8 r = 0) : r = 0 := by
+  unfold shift8 at h0
+  have h1 := shiftStep_lt h
+  have h2 := shiftStep_lt h1
+  have h3 := shiftStep_lt h2
+  have h4 := shiftStep_lt h3
+  have h5 := shiftStep_lt h4
+  have h6 := shiftStep_lt h5
+  have h7 := shiftStep_lt h6
+  exact shiftStep_eq_zero h (shiftStep_eq_zero h1 (shiftStep_eq_zero h2 (shiftStep_eq_zero h3
+    (shiftStep_eq_zero h4 (shiftStep_eq_zero h5 (shiftStep_eq_zero h6 (shiftStep_eq_zero h7 h0)))))))
+
+/-- the difference of two registers evolves by `shift8`, independently of the absorbed byte -/
+theorem crcUpd_xor_crcUpd (a b x : Nat) : crcUpd a x ^^^ crcUpd b x = shift8 (a ^^^ b) := by
+  unfold crcUpd
+  rw [← shift8_xor]
+  congr 1
+  calc a ^^^ x ^^^ (b ^^^ x) = a ^^^ b ^^^ (x ^^^ x) := by ac_rfl
+    _ = a ^^^ b := by rw [Nat.xor_self, Nat.xor_zero]
+
+theorem crcUpd_xor_byte (r x d : Nat) : crcUpd r x ^^^ crcUpd r (x ^^^ d) = shift8 d := by
+  unfold crcUpd
+  rw [← shift8_xor]
+  congr 1
+  calc r ^^^ x ^^^ (r ^^^ (x ^^^ d)) = (r ^^^ r) ^^^ (x ^^^ x) ^^^ d := by ac_rfl
+    _ = d := by simp [Nat.xor_self]
+
+/-- registers whose difference is a non-zero 32-bit value stay so after absorbing the same bytes -/
+theorem crcReg_diff (bs : Bytes) : ∀ a b : Nat, a ^^^ b < 2 ^ 32 → a ^^^ b ≠ 0 →
+    crcReg a bs ^^^ crcReg b bs < 2 ^ 32 ∧ crcReg a bs ^^^ crcReg b bs ≠ 0 := by
+  induction bs with
+  | nil => intro a b h1 h2; exact ⟨h1, h2⟩
+  | cons x xs ih =>
+    intro a b h1 h2
+    simp only [crcReg, List.foldl_cons]
+    apply ih
+    · rw [crcUpd_xor_crcUpd]; exact shift8_lt h1
+    · rw [crcUpd_xor_crcUpd]; exact fun h => h2 (shift8_eq_zero h1 h)
+
+theorem crcReg_append (i : Nat) (a b : Bytes) : crcReg i (a ++ b) = crcReg (crcReg i a) b := by
+  simp [crcReg, List.foldl_append]
+
+theorem crcReg_set_diff (i : Nat) (m : Bytes) (k d : Nat) (hk : k < m.length) (hd0 : 0 < d) (hd : d < 256) :
+    crcReg i m ^^^ crcReg i (m.set k (m.getD k 0 ^^^ d)) < 2 ^ 32 ∧
+    crcReg i m ^^^ crcReg i (m.set k (m.getD k 0 ^^^ d)) ≠ 0 := by
+  have hm : m = m.take k ++ m[k] :: m.drop (k + 1) := by simp
+  have hs : m.set k (m.getD k 0 ^^^ d) = m.take k ++ (m[k] ^^^ d) :: m.drop (k + 1) := by
+    rw [List.set_eq_take_append_cons_drop, if_pos hk]
+    simp [List.getD_eq_getElem?_getD, hk]
+  have e1 : crcReg i m = crcReg (crcUpd (crcReg i (m.take k)) m[k]) (m.drop (k + 1)) := by
+    have := congrArg (crcReg i) hm
+    rw [this, crcReg_append]; rfl
+  have e2 : crcReg i (m.set k (m.getD k 0 ^^^ d)) =
+      crcReg (crcUpd (crcReg i (m.take k)) (m[k] ^^^ d)) (m.drop (k + 1)) := by
+    rw [hs, crcReg_append]; rfl
+  rw [e1, e2]
+  have hne : ∀ e : Fin 256, e.val ≠ 0 → shift8 e.val ≠ 0 := by decide +kernel
+  have h8 : shift8 d < 2 ^ 32 := shift8_lt (by omega)
+  have h0 : shift8 d ≠ 0 := hne ⟨d, hd⟩ (by simp; omega)
+  exact crcReg_diff _ _ _ (by rw [crcUpd_xor_byte]; exact h8) (by rw [crcUpd_xor_byte]; exact h0)
+
+/-! ### generic checksum codec facts -/
+
+theorem le32_length (n : Nat) : (le32 n).length = 4 := rfl
+
+theorem checksumDec_append_bad (sum : Bytes → Nat) (q c : Bytes) (hc : c.length = 4)
+    (hne : le32 (sum q) ≠ c) : checksumDec sum true (q ++ c) = .error .invalidChecksum := by
+  unfold checksumDec
+  have hl : (q ++ c).length - 4 = q.length := by simp [hc]
+  have h4 : ¬ (q ++ c).length < 4 := by simp [hc]
+  rw [if_neg h4]
+  simp only [hl, List.take_left', List.drop_left', Bool.true_and]
+  simp [hne]
+
+theorem set_xor_ne (l : Bytes) (j d : Nat) (hj : j < l.length) (hd : d ≠ 0) :
+    l.set j (l.getD j 0 ^^^ d) ≠ l := by
+  intro h
+  have := congrArg (fun l => l.getD j 0) h
+  simp [List.getD_eq_getElem?_getD, hj] at this
+  exact xor_ne_self hd this
+
+theorem getD_append_left (p c : Bytes) (k : Nat) (hk : k < p.length) : (p ++ c).getD k 0 = p.getD k 0 := by
+  simp [List.getD_eq_getElem?_getD, List.getElem?_append_left hk]
+
+theorem getD_append_right (p c : Bytes) (k : Nat) (hk : p.length ≤ k) :
+    (p ++ c).getD k 0 = c.getD (k - p.length) 0 := by
+  simp [List.getD_eq_getElem?_getD, List.getElem?_append_right hk]
+
+/-- altering a byte of the stored checksum is detected -/
+theorem checksumDec_alter_checksum (sum : Bytes → Nat) (p : Bytes) (k d : Nat) (hk1 : p.length ≤ k)
+    (hk : k < p.length + 4) (hd : d ≠ 0) :
+    checksumDec sum true ((checksumEnc sum p).set k ((checksumEnc sum p).getD k 0 ^^^ d)) =
+      .error .invalidChecksum := by
+  unfold checksumEnc
+  rw [List.set_append, if_neg (by omega), getD_append_right _ _ _ hk1]
+  apply checksumDec_append_bad
+  · simp [le32_length]
+  · exact fun h => set_xor_ne _ _ _ (by simp [le32_length]; omega) hd h.symm
+
+/-- altering a payload byte is detected as soon as the checksum (as stored) changes -/
+theorem checksumDec_alter_payload (sum : Bytes → Nat) (p : Bytes) (k d : Nat) (hk : k < p.length)
+    (hne : le32 (sum (p.set k (p.getD k 0 ^^^ d))) ≠ le32 (sum p)) :
+    checksumDec sum true ((checksumEnc sum p).set k ((checksumEnc sum p).getD k 0 ^^^ d)) =
+      .error .invalidChecksum := by
+  unfold checksumEnc
+  rw [List.set_append, if_pos hk, getD_append_left _ _ _ hk]
+  exact checksumDec_append_bad _ _ _ (le32_length _) hne
+
+theorem le32_inj_mod {a b : Nat} (h : le32 a = le32 b) : a % 2 ^ 32 = b % 2 ^ 32 := by
+  simp only [le32, List.cons.injEq, and_true] at h
+  omega
+
+theorem le32_inj_mod16 {a b : Nat} (h : le32 a = le32 b) : a % 65536 = b % 65536 := by
+  simp only [le32, List.cons.injEq, and_true] at h
+  omega
+
+theorem crc32c_set_ne (m : Bytes) (k d : Nat) (hk : k < m.length) (hd0 : 0 < d) (hd : d < 256) :
+    le32 (crc32c (m.set k (m.getD k 0 ^^^ d))) ≠ le32 (crc32c m) := by
+  intro h
+  have h1 := le32_inj_mod h
+  obtain ⟨hlt, hne⟩ := crcReg_set_diff 0xFFFFFFFF m k d hk hd0 hd
+  apply hne
+  have h2 : (crc32c m ^^^ crc32c (m.set k (m.getD k 0 ^^^ d))) % 2 ^ 32 = 0 := by
+    rw [Nat.xor_mod_two_pow, h1, Nat.xor_self]
+  have h3 : crc32c m ^^^ crc32c (m.set k (m.getD k 0 ^^^ d)) =
+      crcReg 0xFFFFFFFF m ^^^ crcReg 0xFFFFFFFF (m.set k (m.getD k 0 ^^^ d)) := by
+    unfold crc32c
+    generalize crcReg 0xFFFFFFFF m = a
+    generalize crcReg 0xFFFFFFFF (m.set k (m.getD k 0 ^^^ d)) = b
+    calc a ^^^ 0xFFFFFFFF ^^^ (b ^^^ 0xFFFFFFFF) = a ^^^ b ^^^ (0xFFFFFFFF ^^^ 0xFFFFFFFF) := by ac_rfl
+      _ = a ^^^ b := by rw [Nat.xor_self, Nat.xor_zero]
+  rw [h3] at h2
+  rwa [Nat.mod_eq_of_lt hlt] at h2
+
+/-- CRC-32C: every single-byte alteration of `payload ++ checksum` is rejected -/
+theorem crc32c_detects (p : Bytes) (k d : Nat) (hk : k < p.length + 4) (hd0 : 0 < d) (hd : d < 256) :
+    crc32cDec true ((crc32cEnc p).set k ((crc32cEnc p).getD k 0 ^^^ d)) = .error .invalidChecksum := by
+  unfold crc32cDec crc32cEnc
+  by_cases h : k < p.length
+  · exact checksumDec_alter_payload _ _ _ _ h (crc32c_set_ne p k d h hd0 hd)
+  · exact checksumDec_alter_checksum _ _ _ _ (by omega) hk (by omega)
+
+/-! ### Fletcher-32 arithmetic -/
+
+theorem fold16_mod (x : Nat) : fold16 x % 65535 = x % 65535 := by unfold fold16; omega
+
+theorem fold16_le {x : Nat} (h : x < 4294967296) : fold16 x ≤ 131070 := by unfold fold16; omega
+
+theorem fold16_le' {x : Nat} (h : x ≤ 131070) : fold16 x ≤ 65535 := by unfold fold16; omega
+
+theorem fletcherBlock_fst (ws : List Nat) : ∀ s : Nat × Nat, (fletcherBlock s ws).1 = s.1 + ws.sum := by
+  induction ws with
+  | nil => intro s; simp [fletcherBlock]
+  | cons w ws ih => intro s; obtain ⟨s1, s2⟩ := s; simp only [fletcherBlock, ih, List.sum_cons]; omega
+
+/-- weighted byte sum: even positions weigh 256, odd positions 1 -/
+def wsum : Bytes → Nat
+  | a :: b :: rest => a * 256 + b + wsum rest
+  | [a] => a * 256
+  | [] => 0
+
+theorem chunksOf_flatten {α} (n : Nat) (hn : 0 < n) : ∀ (fuel : Nat) (l : List α), l.length < fuel →
+    (chunksOf n fuel l).flatten = l := by
+  intro fuel
+  induction fuel with
+  | zero => intro l h; omega
+  | succ f ih =>
+    intro l h
+    unfold chunksOf
+    split
+    · rename_i he; simp at he; simp [he]
+    · rename_i he
+      have : l ≠ [] := by simpa using he
+      have hl : 0 < l.length := List.length_pos_iff.mpr this
+      rw [List.flatten_cons, ih _ (by simp; omega), List.take_append_drop]
+
+theorem chunksOf_len {α} (n : Nat) : ∀ (fuel : Nat) (l : List α), ∀ c ∈ chunksOf n fuel l, c.length ≤ n ∧ ∀ x ∈ c, x ∈ l := by
+  intro fuel
+  induction fuel with
+  | zero => intro l c h; simp [chunksOf] at h
+  | succ f ih =>
+    intro l c h
+    unfold chunksOf at h
+    split at h
+    · simp at h
+    · rcases List.mem_cons.mp h with h | h
+      · subst h; exact ⟨by simp [List.length_take]; omega, fun x hx => List.mem_of_mem_take hx⟩
+      · obtain ⟨h1, h2⟩ := ih _ c h
+        exact ⟨h1, fun x hx => List.mem_of_mem_drop (h2 x hx)⟩
+
+theorem sum_le_of_bound (l : List Nat) (B : Nat) (h : ∀ x ∈ l, x ≤ B) : l.sum ≤ l.length * B := by
+  induction l with
+  | nil => simp
+  | cons a l ih =>
+    have h1 := h a (by simp)
+    have h2 := ih (fun x hx => h x (by simp [hx]))
+    simp only [List.sum_cons, List.length_cons, Nat.add_mul]; omega
+
+theorem words_bound : ∀ (b : Bytes), (∀ x ∈ b, x < 256) → ∀ w ∈ words b, w ≤ 65535
+  | a :: b :: rest, h, w, hw => by
+    simp only [words, List.mem_cons] at hw
+    rcases hw with hw | hw
+    · have := h a (by simp); have := h b (by simp); omega
+    · exact words_bound rest (fun x hx => h x (by simp [hx])) w hw
+  | [_], _, w, hw => by simp [words] at hw
+  | [], _, w, hw => by simp [words] at hw
+
+/-- the block loop: the first running sum stays small and is the word sum modulo 65535 -/
+theorem fletcher_loop (blks : List (List Nat)) (hb : ∀ c ∈ blks, c.length ≤ 360 ∧ ∀ w ∈ c, w ≤ 65535) :
+    ∀ acc : Nat × Nat, acc.1 ≤ 131070 →
+    let r := blks.foldl (fun (acc : Nat × Nat) blk =>
+      let (a, b) := fletcherBlock acc blk; (fold16 a, fold16 b)) acc
+    r.1 ≤ 131070 ∧ r.1 % 65535 = (acc.1 + blks.flatten.sum) % 65535 := by
+  induction blks with
+  | nil => intro acc h; simp [h]
+  | cons c cs ih =>
+    intro acc h
+    simp only [List.foldl_cons]
+    have hc := hb c (by simp)
+    have hs := sum_le_of_bound c 65535 hc.2
+    have hs' : c.sum ≤ 360 * 65535 := Nat.le_trans hs (Nat.mul_le_mul_right _ hc.1)
+    have key : (fletcherBlock acc c).1 = acc.1 + c.sum := fletcherBlock_fst c acc
+    have h1 : fold16 (fletcherBlock acc c).1 ≤ 131070 := fold16_le (by rw [key]; omega)
+    have := ih (fun c' hc' => hb c' (by simp [hc'])) (fold16 (fletcherBlock acc c).1, fold16 (fletcherBlock acc c).2) h1
+    simp only at this
+    refine ⟨this.1, ?_⟩
+    rw [this.2, List.flatten_cons, List.sum_append]
+    have := fold16_mod (fletcherBlock acc c).1
+    generalize fold16 (fletcherBlock acc c).1 = F at this ⊢
+    rw [key] at this
+    omega
+
+theorem wsum_eq : ∀ (b : Bytes),
+    (words b).sum + (if b.length % 2 = 1 then b.getLastD 0 * 256 else 0) = wsum b
+  | a :: b :: rest => by
+    have ih := wsum_eq rest
+    have hl : (a :: b :: rest).length % 2 = rest.length % 2 := by simp only [List.length_cons]; omega
+    simp only [words, wsum, List.sum_cons, hl]
+    cases rest with
+    | nil => simp [words, wsum]
+    | cons c cs =>
+      have : (a :: b :: c :: cs).getLastD 0 = (c :: cs).getLastD 0 := by simp [List.getLastD]
+      rw [this]; omega
+  | [a] => by simp [words, wsum]
+  | [] => by simp [words, wsum]
+
+theorem fletcher32_spec (data : Bytes) (h : ∀ x ∈ data, x < 256) :
+    ∃ s1 s2, fletcher32 data = ((s2 * 65536) % 4294967296) ||| s1 ∧ s1 ≤ 65535 ∧
+      s1 % 65535 = wsum data % 65535 := by
+  have hb : ∀ c ∈ chunksOf 360 ((words data).length + 1) (words data), c.length ≤ 360 ∧ ∀ w ∈ c, w ≤ 65535 := by
+    intro c hc
+    obtain ⟨h1, h2⟩ := chunksOf_len 360 _ _ c hc
+    exact ⟨h1, fun w hw => words_bound data h w (h2 w hw)⟩
+  have hloop := fletcher_loop _ hb (0, 0) (by simp)
+  simp only [chunksOf_flatten 360 (by omega) _ _ (Nat.lt_succ_self _), Nat.zero_add] at hloop
+  have hw := wsum_eq data
+  unfold fletcher32
+  simp only []
+  generalize List.foldl _ (0, 0) (chunksOf 360 ((words data).length + 1) (words data)) = r at hloop ⊢
+  obtain ⟨r1, r2⟩ := r
+  simp only at hloop
+  obtain ⟨hr1, hr2⟩ := hloop
+  by_cases ho : data.length % 2 = 1
+  · simp only [ho, if_true] at hw ⊢
+    have hlast : data.getLastD 0 < 256 := by
+      cases data with
+      | nil => simp at ho
+      | cons a t =>
+        have : (a :: t).getLastD 0 = (a :: t).getLast (by simp) := by simp [List.getLastD]
+        rw [this]; exact h _ (List.getLast_mem _)
+    refine ⟨_, _, rfl, ?_, ?_⟩
+    · exact fold16_le' (fold16_le (by omega))
+    · rw [fold16_mod, fold16_mod]; omega
+  · simp only [ho, if_false] at hw ⊢
+    refine ⟨_, _, rfl, fold16_le' hr1, ?_⟩
+    rw [fold16_mod]; omega
+
+theorem fletcher32_mod (data : Bytes) (h : ∀ x ∈ data, x < 256) :
+    fletcher32 data % 65536 ≤ 65535 ∧ (fletcher32 data % 65536) % 65535 = wsum data % 65535 := by
+  obtain ⟨s1, s2, he, hs, hm⟩ := fletcher32_spec data h
+  have : fletcher32 data % 65536 = s1 := by
+    rw [he]
+    have := @Nat.or_mod_two_pow (s2 * 65536 % 4294967296) s1 16
+    simp only [show (2:Nat) ^ 16 = 65536 from rfl] at this
+    rw [this, show s2 * 65536 % 4294967296 % 65536 = 0 by omega, Nat.zero_or, Nat.mod_eq_of_lt (by omega)]
+  rw [this]; exact ⟨hs, hm⟩
+
+def wt (k : Nat) : Nat := if k % 2 = 0 then 256 else 1
+
+theorem wsum_set : ∀ (b : Bytes) (k y : Nat), k < b.length →
+    wsum (b.set k y) + b.getD k 0 * wt k = wsum b + y * wt k
+  | a :: b :: rest, 0, y, _ => by simp [wsum, wt]; omega
+  | a :: b :: rest, 1, y, _ => by simp [wsum, wt]; omega
+  | a :: b :: rest, k + 2, y, hk => by
+    have ih := wsum_set rest k y (by simpa using hk)
+    have hw : wt (k + 2) = wt k := by unfold wt; congr 1; simp
+    simp only [List.set_cons_succ, wsum, List.getD_cons_succ, hw]
+    omega
+  | [a], 0, y, _ => by simp [wsum, wt]; omega
+  | [a], k + 1, y, hk => by simp at hk
+  | [], k, y, hk => by simp at hk
+
+theorem fletcher32_set_ne (m : Bytes) (hm : ∀ x ∈ m, x < 256) (k d : Nat) (hk : k < m.length)
+    (hd0 : 0 < d) (hd : d < 256) :
+    le32 (fletcher32 (m.set k (m.getD k 0 ^^^ d))) ≠ le32 (fletcher32 m) := by
+  intro h
+  have h16 := le32_inj_mod16 h
+  have hx : m.getD k 0 < 256 := by
+    simp only [List.getD_eq_getElem?_getD, List.getElem?_eq_getElem hk, Option.getD_some]
+    exact hm _ (List.getElem_mem hk)
+  have hy : m.getD k 0 ^^^ d < 256 := @Nat.xor_lt_two_pow _ _ 8 hx hd
+  have hne : m.getD k 0 ^^^ d ≠ m.getD k 0 := xor_ne_self (by omega)
+  have hm' : ∀ x ∈ m.set k (m.getD k 0 ^^^ d), x < 256 := by
+    intro x hx'
+    rcases List.mem_or_eq_of_mem_set hx' with h | h
+    · exact hm x h
+    · omega
+  have h1 := (fletcher32_mod m hm).2
+  have h2 := (fletcher32_mod _ hm').2
+  rw [h16] at h2
+  have hs := wsum_set m k (m.getD k 0 ^^^ d) hk
+  have hwt : wt k = 256 ∨ wt k = 1 := by unfold wt; split <;> simp
+  generalize m.getD k 0 ^^^ d = y at *
+  generalize m.getD k 0 = x at *
+  rcases hwt with hwt | hwt <;> rw [hwt] at hs <;> omega
+
+/-- Fletcher-32: every single-byte alteration of `payload ++ checksum` is rejected -/
+theorem fletcher32_detects (p : Bytes) (hp : ∀ x ∈ p, x < 256) (k d : Nat) (hk : k < p.length + 4)
+    (hd0 : 0 < d) (hd : d < 256) :
+    fletcher32Dec true ((fletcher32Enc p).set k ((fletcher32Enc p).getD k 0 ^^^ d)) =
+      .error .invalidChecksum := by
+  unfold fletcher32Dec fletcher32Enc
+  by_cases h : k < p.length
+  · exact checksumDec_alter_payload _ _ _ _ h (fletcher32_set_ne p hp k d h hd0 hd)
+  · exact checksumDec_alter_checksum _ _ _ _ (by omega) hk (by omega)
+
+/-! ### shard index facts -/
+
+theorem mapM_except_ok {α β ε} (f : α → Except ε β) : ∀ (l : List α) (r : List β), l.mapM f = .ok r →
+    r.length = l.length ∧ ∀ i (h1 : i < l.length) (h2 : i < r.length), f l[i] = .ok r[i]
+  | [], r, h => by
+    simp only [List.mapM_nil, pure, Except.pure, Except.ok.injEq] at h
+    subst h; simp
+  | a :: l, r, h => by
+    rw [List.mapM_cons] at h
+    cases hfa : f a with
+    | error e => simp [hfa, bind, Except.bind] at h
+    | ok b =>
+      cases hl : l.mapM f with
+      | error e => simp [hfa, hl, bind, Except.bind] at h
+      | ok bs =>
+        simp only [hfa, hl, bind, Except.bind, pure, Except.pure, Except.ok.injEq] at h
+        subst h
+        obtain ⟨ih1, ih2⟩ := mapM_except_ok f l bs hl
+        refine ⟨by simp [ih1], ?_⟩
+        intro i h1 h2
+        cases i with
+        | zero => simpa using hfa
+        | succ i => simpa using ih2 i (by simpa using h1) (by simpa using h2)
+
+theorem le64_length (n : Nat) : (le64 n).length = 8 := by simp [le64]
+
+theorem w64_length (big : Bool) (n : Nat) : (Shard.w64 big n).length = 8 := by
+  unfold Shard.w64 be64; split <;> simp [le64_length]
+
+theorem rawIndex_length (big : Bool) (entries : List (Nat × Nat)) :
+    (entries.flatMap (fun e => Shard.w64 big e.1 ++ Shard.w64 big e.2)).length = 16 * entries.length := by
+  induction entries with
+  | nil => simp
+  | cons e es ih => simp only [List.flatMap_cons, List.length_append, ih, w64_length, List.length_cons]; omega
+
 end Zarrs.Codec
